@@ -15,6 +15,108 @@ Definition canon_case (m : metric_kind) (e : encoding) (K : nat) (c : container)
 DT = {'float32': 'F32', 'float64': 'F64', 'int8': 'I8', 'int16': 'I16', 'int32': 'I32', 'int64': 'I64', 'uint8': 'U8'}
 
 
+def _leaf_solver_regime(ck, xr, cases):
+    """The same class targets under every leaf solver the fit parameters accept (rfm_params['fit']['solver'] = solve / cholesky / lu / log_reg) and an explicit
+    classification metric.  With the kernel logistic solver the leaf outputs are logits, so the decoding of the averaged outputs into labels goes through what the model
+    recorded about the targets at coercion time (number of classes, output kind): whatever it records must not depend on whether the caller stored the labels as
+    (n,) or (n,1), as float32 / float64 zeros and ones, as a one-hot float matrix or as integers of some width, in a tensor or an array.  Queries are many and the labels
+    are noisy, so that a good share of the queries has class probabilities close to 1/2 (small logits of either sign), where a decoding slip shows.
+    Oracle (statement): identical predicted labels and probabilities for every representation of the same targets; (n,) integer labels, (n, K) probabilities."""
+    import contextlib, io
+    rng = np.random.default_rng(ck.seed + 2222)
+    SOLVERS = ['log_reg', 'solve', 'log_reg', 'cholesky', 'log_reg', 'lu']
+    XREPS = [('tensor', 'float32'), ('array', 'float32'), ('array', 'float64')]
+    for j in range(ck.n(6, 18)):
+        solver = SOLVERS[j % 6]
+        K = 3 if (solver != 'log_reg' and j % 4 == 1) else 2          # the logistic solver is binary
+        metric = ['accuracy', 'brier', 'logloss'][(j // 2) % 3]
+        n_trees = 2 if j % 6 == 4 else 1
+        n = int(rng.integers(100, 180)); d = 3; nv = 45
+        L = 10_000 if j % 4 == 2 else int(rng.integers(28, 45))
+        X = xr.make_X('random', n, d, rng); Xv = xr.make_X('random', nv, d, rng)
+        lab = xr.make_y('class', X, rng, n_classes=K); labv = xr.make_y('class', Xv, rng, n_classes=K)
+        # label noise: a fifth of the labels is redrawn -> flatter fitted probabilities, many queries near the decision boundary
+        for a in (lab, labv):
+            flip = rng.random(len(a)) < 0.2; flip[:K] = False
+            a[flip] = rng.integers(0, K, size=int(flip.sum()))
+        Q = np.concatenate([xr.make_X('random', 220, d, rng), X[:40]]).astype(np.float32)
+        params = xr.default_rfm_params(iters=1, reg=1e-2, bandwidth=3.0)
+        params['fit']['solver'] = solver
+        ctor = dict(rfm_params=params, max_leaf_size=L, verbose=False, tuning_metric=metric, use_temperature_tuning=False, refill_size=15, n_trees=n_trees)
+        desc = dict(kind='leaf solver x representation of class targets', j=j, solver=solver, K=K, n=n, n_val=nv, n_queries=len(Q), L=L, metric=metric,
+                    n_trees=n_trees, label_noise=0.2, seed=ck.seed)
+        if K == 2:
+            reps = [(c, dt, sh) for c in ('tensor', 'array') for dt in ('float32', 'float64') for sh in ('column', 'flat')]
+        else:
+            reps = [(c, dt, 'onehot') for c in ('tensor', 'array') for dt in ('float32', 'float64')]
+        reps += [('array', 'int64', 'flat'), ('tensor', 'int32', 'column'), ('array', 'uint8', 'column'), ('tensor', 'int8', 'flat')]
+
+        def enc(a, dt, sh):
+            if sh == 'onehot':
+                return np.eye(K, dtype=dt)[a]
+            return a.astype(dt).reshape(-1, 1) if sh == 'column' else a.astype(dt)
+
+        ref = None; ref_rejected = None
+        for k, (c, dt, sh) in enumerate(reps):
+            xc, xdt = XREPS[k % 3]
+            rep = dict(X=(xc, xdt), y=(c, dt, sh))
+            wx = (lambda a: torch.tensor(a.astype(xdt))) if xc == 'tensor' else (lambda a: a.astype(xdt))
+            wy = (lambda a: torch.tensor(a)) if c == 'tensor' else (lambda a: a)
+            xr.seed_all(2200 + j + ck.seed)
+            model = xr.xRFM(**copy.deepcopy(ctor))
+            try:
+                with xr.quiet(), xr.recording_rfm() as log, contextlib.redirect_stderr(io.StringIO()):
+                    model.fit(wx(X), wy(enc(lab, dt, sh)), wx(Xv), wy(enc(labv, dt, sh)))
+                    leaf_inputs = [(r.rec_train[0].numpy().tobytes(), r.rec_train[1].numpy().tobytes(), str(r.rec_train[1].dtype), tuple(r.rec_train[1].shape)) for r in log if r.rec_is_leaf]
+                    pred = np.asarray(model.predict(wx(Q))); proba = np.asarray(model.predict_proba(wx(Q)))
+            except Exception as e:
+                if k == 0:
+                    ref_rejected = repr(e); ck.count('leaf-solver regime: configuration rejected in the reference representation')
+                elif ref_rejected is not None:
+                    ck.count('leaf-solver regime: configuration rejected in every representation alike')
+                else:
+                    ck.violation(f'representation {rep} of the class targets is rejected ({e!r}) while {ref[1]} is accepted (leaf solver {solver}), on {desc}',
+                                 dict(desc, rep=rep, reference=ref[1], error=repr(e)), key=json.dumps(dict(site='leaf-solver-rejected', solver=solver, dtype=dt, shape=sh)))
+                continue
+            if ref_rejected is not None:
+                ck.violation(f'representation {rep} of the class targets is accepted while {reps[0]} is rejected ({ref_rejected}) (leaf solver {solver}), on {desc}',
+                             dict(desc, rep=rep, reference=reps[0], error=ref_rejected), key=json.dumps(dict(site='leaf-solver-rejected', solver=solver, dtype=dt, shape=sh)))
+                continue
+            ck.case(dict(desc, rep=rep), nontrivial=True); ck.count(f'leaf solver {solver}: y={c}/{dt}/{sh}')
+            if pred.shape != (len(Q),) or not np.issubdtype(pred.dtype, np.integer) or proba.shape != (len(Q), K) or not np.issubdtype(proba.dtype, np.floating):
+                ck.violation(f'leaf solver {solver}, class targets {rep}: predictions have shape {pred.shape} dtype {pred.dtype}, probabilities {proba.shape} {proba.dtype}; expected '
+                             f'({len(Q)},) integer labels and ({len(Q)}, {K}) float probabilities on {desc}', dict(desc, rep=rep), key=json.dumps(dict(site='leaf-solver-format', solver=solver)))
+                continue
+            if leaf_inputs:
+                shp = leaf_inputs[0][3]
+                cq = (f"canon_case ClassMetric ZeroOne {K}%nat {'Tensor' if c == 'tensor' else 'Array'} {DT[dt]} "
+                      f"{dict(flat='Flat', column='Column', onehot=f'(Wide {K}%nat)')[sh]} true {shp[1] if len(shp) > 1 else 0}%nat")
+                cases.append((len(cases), cq))
+            if ref is None:
+                ref = ((leaf_inputs, pred, proba), rep)
+                ck.count(f'leaf-solver regime: queries with P(class 1) within 0.12 of 1/2 (reference fit, {solver})', int((np.abs(proba[:, 1] - 0.5) < 0.12).sum()))
+                continue
+            (leaf0, pred0, proba0), rep0 = ref
+            if leaf_inputs != leaf0:
+                ck.violation(f'leaf solver {solver}: the canonical leaf inputs for class targets {rep} differ from those for the same targets passed as {rep0} on {desc}',
+                             dict(desc, rep=rep, reference=rep0), key=json.dumps(dict(site='leaf-solver-leaf-inputs', solver=solver, dtype=dt, shape=sh)))
+            nd = int((pred != pred0).sum()); dp = float(np.max(np.abs(proba.astype(np.float64) - proba0.astype(np.float64))))
+            if nd or dp > 0:
+                if nd:
+                    q = int(np.nonzero(pred != pred0)[0][0])
+                    eg = (f'; e.g. query row {q} x={[float(v) for v in Q[q]]}: label {int(pred[q])} vs {int(pred0[q])}, probabilities {[float(v) for v in proba[q]]} vs '
+                          f'{[float(v) for v in proba0[q]]}; share of class 1: {float((pred == 1).mean()):.4f} vs {float((pred0 == 1).mean()):.4f}')
+                else:
+                    q = int(np.argmax(np.abs(proba.astype(np.float64) - proba0.astype(np.float64)).max(axis=1)))
+                    eg = f'; e.g. query row {q} x={[float(v) for v in Q[q]]}: probabilities {[float(v) for v in proba[q]]} vs {[float(v) for v in proba0[q]]}'
+                ck.violation(f'leaf solver {solver}, metric {metric}: {nd} of {len(Q)} predicted labels (max probability difference {dp:.3g}) for class targets {rep} differ from those for '
+                             f'the same targets passed as {rep0}{eg}; on {desc}',
+                             dict(desc, rep=rep, reference=rep0, labels_differ=nd, max_proba_diff=dp, query_row=q, query=[float(v) for v in Q[q]],
+                                  label=int(pred[q]), label_reference=int(pred0[q]), proba=[float(v) for v in proba[q]], proba_reference=[float(v) for v in proba0[q]],
+                                  train_labels_head=[int(v) for v in lab[:12]], X_head=[[float(v) for v in r] for r in X[:3]]),
+                             key=json.dumps(dict(site='leaf-solver-representation', solver=solver, dtype=dt, shape=sh)))
+
+
 def run(ck):
     from harness import xr
     ck.rule = ('for data sets x task types x label encodings x tree depths: the same abstract data passed as float32 tensors / float32 arrays / float64 arrays '
@@ -266,6 +368,7 @@ def run(ck):
                 what = 'canonical leaf inputs' if cur[0] != ref[0][0] else 'predictions'
                 ck.violation(f'{what} for float-coded class targets {rep} differ from those of {ref[1]} on {desc}', dict(desc, rep=rep),
                              key=json.dumps(dict(site='float-class-representation', dtype=dt, shape=sh)))
+    _leaf_solver_regime(ck, xr, cases)
     res = ck.run_bool_cases('canon', HEADER, cases, shard=400)
     bad = [k for k, v in res.items() if v is not True]
     ck.obligation(f'correspondence: task type and canonical target format observed at the leaves == Coq canon_y / is_class on {len(cases)} representations',
